@@ -115,7 +115,7 @@ def main():
         ta = r["toallevents"]
         # (a window that covers the whole kinematic range gives a quotient of two quadratures of the same integral: 1 up to their
         #  rounding, e.g. 0.99999999835 for Pb214 mode 13 with the window (-, 4.1875] on the unchanged tree)
-        if not (isinstance(ta, (int, float)) and ta >= 1.0 - 1e-6):
+        if not (isinstance(ta, (int, float)) and ta >= 1.0 - 1e-3):   # two quadratures asked for 1e-4 each; thorough seed 21 saw 0.9999980636 (Ca48 level 1 mode 8, window (-, 3.14])
             chk.violation(r["config"] + "|toallevents<1", "%s: toallevents = %r" % (r["config"], ta), {"config": r["config"]})
         if not r["window"] and isinstance(ta, (int, float)) and abs(ta - 1.0) > 1e-9:
             chk.violation(r["config"] + "|toallevents-fullrange", "%s: full range but toallevents = %r" % (r["config"], ta), {"config": r["config"]})
